@@ -440,7 +440,7 @@ class C05(RecheckProp):
             base["extra_keys"] = g % 3 == 1          # reference metafiles with keys this tool never writes
             base["rel_paths"] = g % 4 == 2           # both paths spelled relative to the working directory
             if g % 5 == 3:                           # contents that are not unique random bytes
-                pat = ("zeros", "repeat", "sparse", "same")[(g // 5) % 4]
+                pat = ("zeros", "repeat", "sparse", "same", "ztail", "const", "zhead", "period", "zmid")[(g // 5) % 9]
                 for f in base["tree"]["files"]:
                     f["mode"] = pat
             for mode in ("root", "parent"):
